@@ -11,6 +11,15 @@
 //	    messages x ok / error+details+trailers, cut at EVERY byte offset, ending
 //	    cleanly (io.EOF) and abruptly (io.ErrUnexpectedEOF).
 //
+// Two further dimensions are swept around every one of these bodies (gen.go,
+// buildSpace): READ FRAGMENTATION (one byte per Read; every single read
+// boundary 1..len-1, thorough: every pair; the ending reported with the last
+// bytes) and the DECLARED LENGTH of the body (ContentLength / Content-Length of
+// the reply resp. request: not declared, 0, the true length, the length of the
+// uncut body, 1 GiB, 1 TiB). The oracle is the reference decoder of the body
+// bytes alone, so neither may change the outcome; and a complete genuine body
+// must decode to what the genuine run delivered under every fragmentation.
+//
 // All library code runs in worker processes of this binary (--child) under a
 // hard address-space cap, so a 2 GiB allocation on the strength of a prefix is
 // measured (runtime.MemStats.TotalAlloc) without hurting the host.
@@ -47,6 +56,42 @@ type workerOut struct {
 	hang    int
 	err     error
 	spawns  int
+	skipped int
+}
+
+// A case in which the worker process dies (a panic in a goroutine of the
+// library, an allocation beyond the address-space cap) costs a process start.
+// A broken tree can make tens of thousands of cases die the same death; once
+// crashLimit cases of one class (decoder, ending, place where the reference
+// decoder stops) have died, the workers skip the other cases of that class.
+// Skipped cases are counted and make the run non-exhaustive; nothing is ever
+// skipped on a tree where no worker dies.
+const crashLimit = 3
+
+var (
+	crashMu    sync.Mutex
+	crashCount = map[string]int{}
+)
+
+func crashClass(c *Case) string {
+	stop := stUnary
+	if c.Mode != "unary" {
+		stop = refModel(c.Side, c.Body()).Stop
+	}
+	return c.Side + "/" + c.Mode + "/" + c.ending() + "/" + stop
+}
+
+func skipList() string {
+	crashMu.Lock()
+	defer crashMu.Unlock()
+	var ks []string
+	for k, n := range crashCount {
+		if n >= crashLimit {
+			ks = append(ks, k)
+		}
+	}
+	sort.Strings(ks)
+	return strings.Join(ks, ",")
 }
 
 func hasFlag(name string) bool {
@@ -99,6 +144,8 @@ func spawn(exe string, args []string, of int, out *workerOut, sp *space) (next i
 			} else {
 				out.samples = append(out.samples, hit{idx: idx, findings: r.Findings, obs: r.Obs})
 			}
+		case 'K':
+			out.skipped++
 		case 'F':
 			next, _ = strconv.Atoi(l[2:])
 			finished = true
@@ -122,6 +169,12 @@ func spawn(exe string, args []string, of int, out *workerOut, sp *space) (next i
 	}
 	// the worker died inside case lastS
 	out.hits = append(out.hits, hit{idx: lastS, crash: fmt.Sprintf("%v: %s", werr, crashSummary(stderr.String()))})
+	if sp.blocks != nil {
+		k := crashClass(sp.at(lastS))
+		crashMu.Lock()
+		crashCount[k]++
+		crashMu.Unlock()
+	}
 	if lastS+of >= sp.total() {
 		return -1
 	}
@@ -175,8 +228,59 @@ func baseFingerprint(c *Case, f Finding) string {
 	return fmt.Sprintf("C07|%s/%s|%s|%s", c.Side, c.Mode, f.Clause, cls)
 }
 
+// variantTag names how a case departs from the plain presentation of its body
+// (in one piece, length not declared): the class of its read fragmentation
+// and/or the class of the declared length.
+func variantTag(c *Case) string {
+	d, l := variantTags(c)
+	if d != "" && l != "" {
+		return d + "|" + l
+	}
+	return d + l
+}
+
+func variantTags(c *Case) (delivery, length string) {
+	if c.Delivery != "whole" {
+		delivery = "delivery=" + deliveryClass(c)
+	}
+	if c.CL != nil {
+		length = "content-length=" + clClass(c)
+	}
+	return
+}
+
+func clClass(c *Case) string {
+	switch v := *c.CL; {
+	case v < 0:
+		return "none"
+	case v == 0:
+		return "0"
+	case v == int64(len(c.Body())):
+		return "body-length"
+	case v == int64(c.FullLen):
+		return "uncut-length"
+	case v == clGiB:
+		return "1GiB"
+	case v == clTiB:
+		return "1TiB"
+	default:
+		return "other"
+	}
+}
+
+func presentation(c *Case) string {
+	s := "delivery " + c.Delivery
+	if c.Delivery == "split" {
+		s += fmt.Sprintf(" at %v (%s)", c.Splits, deliveryClass(c))
+	}
+	if c.CL != nil {
+		s += fmt.Sprintf(", declared Content-Length %d", *c.CL)
+	}
+	return s
+}
+
 func describe(c *Case, h *hit, f Finding) string {
-	s := f.What + fmt.Sprintf(" | input: %s [%s, %s %s, %s ending, delivery %s, body %d bytes", c.Label, c.Alphabet, c.Side, c.Mode, c.ending(), c.Delivery, len(c.Body()))
+	s := f.What + fmt.Sprintf(" | input: %s [%s, %s %s, %s ending, %s, body %d bytes", c.Label, c.Alphabet, c.Side, c.Mode, c.ending(), presentation(c), len(c.Body()))
 	if c.Synth == nil && len(c.BodyHex) <= 80 {
 		s += " = " + c.BodyHex
 	}
@@ -194,7 +298,7 @@ func replayMain(rep *vlib.Reporter, exe, path string) {
 		os.Exit(2)
 	}
 	out := &workerOut{hang: -1}
-	sp := &space{nA1: 1}
+	sp := &space{starts: []int{0, 1}}
 	spawn(exe, []string{"--child", "--one", path}, 1, out, sp)
 	if out.err != nil || out.hang >= 0 || len(out.hits) == 0 {
 		fmt.Fprintln(os.Stderr, "INCONCLUSIVE: replay worker:", out.err, "hang:", out.hang)
@@ -205,12 +309,16 @@ func replayMain(rep *vlib.Reporter, exe, path string) {
 	if h.crash != "" {
 		fs = crashFindings(&c, h.crash)
 	}
-	fmt.Printf("replay: %s | %s %s | %s ending | delivery %s | body %s\n", c.Label, c.Side, c.Mode, c.ending(), c.Delivery, c.BodyHex)
+	fmt.Printf("replay: %s | %s %s | %s ending | %s | body %s\n", c.Label, c.Side, c.Mode, c.ending(), presentation(&c), c.BodyHex)
 	if h.obs != nil {
 		fmt.Printf("  observed: delivered %q, final error %q, panic %q, allocated %d bytes\n", h.obs.DeliveredS, h.obs.FinalErr, h.obs.Panic, h.obs.Alloc)
 	}
 	for _, f := range fs {
-		fmt.Printf("  %s: %s\n", baseFingerprint(&c, f), f.What)
+		fp := baseFingerprint(&c, f)
+		if t := variantTag(&c); t != "" {
+			fp += " [" + t + "]"
+		}
+		fmt.Printf("  %s: %s\n", fp, f.What)
 	}
 	if len(fs) > 0 {
 		fmt.Printf("VIOLATION property=C07 replay=%s\n", path)
@@ -237,6 +345,10 @@ func main() {
 	sp, err := buildSpace(rep.Tier)
 	if err != nil {
 		fmt.Fprintln(os.Stderr, "INCONCLUSIVE: recording the genuine bodies failed:", err)
+		os.Exit(2)
+	}
+	if err := harnessSelfTest(); err != nil {
+		fmt.Fprintln(os.Stderr, "INCONCLUSIVE:", err)
 		os.Exit(2)
 	}
 	if err := faithful(sp.recs); err != nil {
@@ -269,14 +381,14 @@ func main() {
 			from := k
 			for from >= 0 && from < total && outs[k].err == nil {
 				from = spawn(exe, []string{"--child", "--tier", rep.Tier, "--shard", strconv.Itoa(k), "--of", strconv.Itoa(W),
-					"--from", strconv.Itoa(from), "--spacehash", sp.hash(), "--sample-every", strconv.Itoa(total/7 + 1)}, W, outs[k], sp)
+					"--from", strconv.Itoa(from), "--spacehash", sp.hash(), "--skip", skipList()}, W, outs[k], sp)
 			}
 		}(k)
 	}
 	wg.Wait()
 	tWorkers := time.Since(t0)
 	var hits, samp []hit
-	spawns := 0
+	spawns, skipped := 0, 0
 	for _, o := range outs {
 		if o.err != nil {
 			fmt.Fprintln(os.Stderr, "INCONCLUSIVE: worker:", o.err)
@@ -291,13 +403,15 @@ func main() {
 		hits = append(hits, o.hits...)
 		samp = append(samp, o.samples...)
 		spawns += o.spawns
+		skipped += o.skipped
 	}
 	sort.Slice(hits, func(i, j int) bool { return hits[i].idx < hits[j].idx })
 	sort.Slice(samp, func(i, j int) bool { return samp[i].idx < samp[j].idx })
 
 	// fingerprints: side/mode + clause + ending + class of the place where the
-	// reference decoder stops. The delivery pattern is added only for classes
-	// that do not also fail under the plain "whole" delivery.
+	// reference decoder stops. The class of the read fragmentation and of the
+	// declared length are added only for classes that do not also fail under the
+	// plain presentation (body in one piece, length not declared).
 	type vio struct {
 		c *Case
 		h *hit
@@ -314,35 +428,81 @@ func main() {
 		}
 		for _, f := range fs {
 			vios = append(vios, vio{c, h, f})
-			if c.Delivery == "whole" {
-				whole[baseFingerprint(c, f)] = true
-			}
+			d, l := variantTags(c)
+			whole[baseFingerprint(c, f)+"|"+d+"|"+l] = true
 		}
 	}
 	perFP := map[string]int{}
 	for _, v := range vios {
 		fp := baseFingerprint(v.c, v.f)
-		if !whole[fp] {
-			fp += "|delivery=" + v.c.Delivery
+		// name only the dimensions without which this class does not fail
+		switch d, l := variantTags(v.c); {
+		case whole[fp+"||"]:
+		case d != "" && l != "" && whole[fp+"||"+l]:
+			fp += "|" + l
+		case d != "" && l != "" && whole[fp+"|"+d+"|"]:
+			fp += "|" + d
+		case d+l != "":
+			fp += "|" + variantTag(v.c)
 		}
 		perFP[fp]++
 		rep.Violation(fp, describe(v.c, v.h, v.f), v.c)
 	}
 
-	// coverage
-	distinct := map[uint64]struct{}{}
+	// coverage: distinct non-trivial cases, counted in parallel (hash of all the
+	// case parameters), by class of the reference decoder's stop
+	nG := runtime.NumCPU()
+	if nG > 16 {
+		nG = 16
+	}
+	type part struct {
+		keys  map[string][]uint64
+		byDim map[string]int
+	}
+	parts := make([]part, nG)
+	var cw sync.WaitGroup
+	for g := 0; g < nG; g++ {
+		cw.Add(1)
+		go func(g int) {
+			defer cw.Done()
+			sq := sp
+			pt := part{keys: map[string][]uint64{}, byDim: map[string]int{}}
+			lo, hi := total*g/nG, total*(g+1)/nG
+			for i := lo; i < hi; i++ {
+				c := sq.at(i)
+				nt, cls := nontrivial(c)
+				if !nt {
+					continue
+				}
+				cl := "-"
+				if c.CL != nil {
+					cl = strconv.FormatInt(*c.CL, 10)
+				}
+				k := fnv64([]byte(c.Side + "|" + c.Mode + "|" + c.ending() + "|" + c.Delivery + fmt.Sprint(c.Splits) + "|" + cl + "|" + string(c.Body())))
+				pt.keys[c.Side+"/"+cls] = append(pt.keys[c.Side+"/"+cls], k)
+			}
+			parts[g] = pt
+		}(g)
+	}
+	cw.Wait()
+	nDistinct := 0
 	byClass := map[string]int{}
-	for i := 0; i < total; i++ {
-		c := sp.at(i)
-		nt, cls := nontrivial(c)
-		if !nt {
-			continue
+	merged := map[string][]uint64{}
+	for _, pt := range parts {
+		for cls, ks := range pt.keys {
+			merged[cls] = append(merged[cls], ks...)
 		}
-		k := fnv64([]byte(c.Side + "|" + c.Mode + "|" + c.ending() + "|" + string(c.Body())))
-		if _, ok := distinct[k]; !ok {
-			distinct[k] = struct{}{}
-			byClass[c.Side+"/"+cls]++
+	}
+	for cls, ks := range merged {
+		sort.Slice(ks, func(i, j int) bool { return ks[i] < ks[j] })
+		n := 0
+		for i := range ks {
+			if i == 0 || ks[i] != ks[i-1] {
+				n++
+			}
 		}
+		byClass[cls] = n
+		nDistinct += n
 	}
 	var samples []interface{}
 	for _, s := range samp {
@@ -362,31 +522,54 @@ func main() {
 	if os.Getenv("VERIF_C07_TIMING") != "" {
 		fmt.Fprintf(os.Stderr, "timing: workers %v, total %v\n", tWorkers, time.Since(t0))
 	}
-	fmt.Printf("C07 %s: %d cases (%d A1 over %d hostile bodies, %d A2 over %d recorded bodies / %d cut points, %d A2-large over %d bodies / %d cut points), %d workers, %d worker starts, %d violating cases, %d fingerprints\n",
-		rep.Tier, total, sp.nA1, sp.hostile.len(), sp.nA2, len(sp.recs), recBytes, sp.nLarge, len(largeSizes(rep.Tier)), len(sp.large), W, spawns, len(hits), len(perFP))
+	var blockList []string
+	for _, b := range sp.blocks {
+		blockList = append(blockList, fmt.Sprintf("%d %s", b.n, b.name))
+	}
+	fmt.Printf("C07 %s: %d cases (%s; %d hostile bodies, %d recorded bodies / %d cut points, %d large bodies / %d cut points), %d workers, %d worker starts, %d violating cases, %d fingerprints%s\n",
+		rep.Tier, total, strings.Join(blockList, ", "), sp.hostile.len(), len(sp.recs), recBytes, len(largeSizes(rep.Tier)), len(sp.large), W, spawns, len(hits), len(perFP),
+		map[bool]string{false: "", true: fmt.Sprintf("; %d cases SKIPPED because %d cases of their class had already killed the worker process", skipped, crashLimit)}[skipped > 0])
+	fragRule := "every single read boundary (offsets 1..len-1; no Read of the body crosses it) and the ending reported together with the last bytes"
+	lenRule := "hostile bodies of <=2 frames and the byte strings"
+	if rep.Tier == "thorough" {
+		fragRule = "every single read boundary and every pair of read boundaries (offsets 1..len-1)"
+		lenRule = "all hostile bodies"
+	}
 	os.Exit(rep.Finish("fault_enumeration", map[string]interface{}{
 		"evaluations":         total,
-		"distinct_nontrivial": len(distinct),
-		"rule": "A1: every sequence of <=3 frames over the frame alphabet (12 prefixes x payload lengths {0,n-1,n,n+1} (n<=5) or {0,7} (huge) x valid/invalid payloads) plus every byte string of length <=5 over {00,01,7F,80,FF}, each fed to client stream (server-streaming and single-response) and server stream (client-streaming and single-request); " +
-			"A2: every byte offset of every distinct recorded genuine body, clean and abrupt ending; A2-large: genuine request and response bodies of 3-6 consecutive large frames (64 KiB, 64 KiB+1, 1 MiB, mixed; thorough also 4 MiB), every message filled with its own index, complete and cut just after the prefix / in the middle / one byte before the end of every frame but the first, clean and abrupt ending, every delivered message compared byte for byte. thorough adds abrupt endings for A1, three delivery patterns of the body reader, long messages and a second error outcome. " +
-			"A case is non-trivial when the reference decoder stops anywhere but at a complete trailer frame (client) / a clean end of a whole request (server), i.e. the decoder must validate a prefix, classify an EOF or detect a cut; distinct by (side, mode, ending, body bytes).",
-		"nontrivial_by_class":   byClass,
-		"frame_alphabet":        sp.nFrameSyms,
-		"hostile_bodies":        sp.hostile.len(),
-		"recorded_bodies":       recNames,
-		"cut_points":            recBytes,
-		"large_bodies":          largeSizes(rep.Tier),
-		"large_cut_points":      len(sp.large),
-		"large_cases":           sp.nLarge,
-		"violating_cases":       len(hits),
-		"cases_per_fingerprint": perFP,
-		"worker_starts":         spawns,
-		"samples":               samples,
-		"exhaustive":            true,
+		"distinct_nontrivial": nDistinct,
+		"rule": fmt.Sprintf("A1: every sequence of <=3 frames over the frame alphabet (%d prefixes x payload lengths {0,n-1,n,n+1} (n<=5) or {0,7} (larger) x valid/invalid payloads) plus every byte string of length <=5 over {00,01,7F,80,FF}, each fed to client stream (server-streaming and single-response) and server stream (client-streaming and single-request); ", len(prefixes)) +
+			"A2: every byte offset of every distinct recorded genuine body, clean and abrupt ending; A2-large: genuine request and response bodies of 3-6 consecutive large frames (64 KiB, 64 KiB+1, 1 MiB, mixed; thorough also 4 MiB), every message filled with its own index, complete and cut just after the prefix / in the middle / one byte before the end of every frame but the first, clean and abrupt ending, every delivered message compared byte for byte. " +
+			fmt.Sprintf("Base presentation of every body: delivered in one piece and one byte per Read%s, length not declared (ContentLength -1; unary replies: as recorded). ", map[bool]string{true: " and with the ending reported together with the last bytes", false: ""}[rep.Tier == "thorough"]) +
+			"Dimension READ FRAGMENTATION, swept around the base cases: A1-frag = hostile bodies of <=2 frames and the byte strings x 4 decoders x endings x " + fragRule + "; " +
+			fmt.Sprintf("A2-frag = every cut of every recorded body of <= %d bytes (longer recordings: the complete body only) x clean/abrupt x the same fragmentations (pairs: recordings of <= %d bytes); ", sp.splitRecMax, sp.pairRecMax) +
+			"A2-large-frag = every large body and cut x clean/abrupt x one read boundary of every class for every frame (1, 2, 3 bytes into the size preface, right after it, mid-payload, at the frame end); the full one-byte-per-read pattern is crossed with everything. " +
+			"Dimension DECLARED LENGTH (ContentLength field and Content-Length header of the reply on the client side, of the request on the server side), swept around the base cases over {0, length of the body, length of the uncut body, 1 GiB, 1 TiB} (-1 is the base): A1-len = " + lenRule + " x 4 decoders, clean ending, one piece; A2-len = every cut of every recorded body x clean/abrupt x the base deliveries; A2-large-len = every large body and cut x clean/abrupt, one piece. " +
+			"Oracle for all of it: the reference decoder of the body bytes alone (delivered messages are an intact prefix of the complete data frames, success only after a complete OK trailer / clean end of a whole request, allocation bound, no panic), so the outcome may not depend on the fragmentation or the declared length; and a complete genuine body with a clean ending and a consistent declared length must decode to exactly what the genuine run delivered, under every fragmentation. thorough adds abrupt endings for A1, long messages and a second error outcome. " +
+			"A case is non-trivial when the reference decoder stops anywhere but at a complete trailer frame (client) / a clean end of a whole request (server), i.e. the decoder must validate a prefix, classify an EOF or detect a cut, or when a read boundary falls inside a frame (size preface or payload) so that the decoder must reassemble it; distinct by (side, mode, ending, delivery and read boundaries, declared length, body bytes).",
+		"blocks":                               sp.blockSizes(),
+		"prefixes":                             prefixes,
+		"declared_lengths":                     "not declared (-1) | 0 | len(body) | len(uncut body) | 1<<30 | 1<<40",
+		"nontrivial_by_class":                  byClass,
+		"frame_alphabet":                       sp.nFrameSyms,
+		"hostile_bodies":                       sp.hostile.len(),
+		"recorded_bodies":                      recNames,
+		"cut_points":                           recBytes,
+		"large_bodies":                         largeSizes(rep.Tier),
+		"large_cut_points":                     len(sp.large),
+		"large_cases":                          sp.nLarge,
+		"violating_cases":                      len(hits),
+		"cases_per_fingerprint":                perFP,
+		"worker_starts":                        spawns,
+		"skipped_after_repeated_worker_deaths": skipped,
+		"samples":                              samples,
+		"exhaustive":                           skipped == 0,
 	}, []string{
 		"net/http is not exercised: client on a synthetic RoundTripper, server on httptest.ResponseRecorder; a body that ends abruptly is modelled by a reader returning io.ErrUnexpectedEOF (what net/http reports for a short chunked/Content-Length body); no real loopback connection is cut",
 		"unary (unframed) bodies: only no-panic, bounded allocation and 'a failed body read delivers no message' are demanded; a cleanly shortened unary body cannot be told from a genuine one without Content-Length, which net/http enforces",
-		"allocation is measured as runtime.MemStats.TotalAlloc growth around one decode in a worker process with RLIMIT_AS = 6 GiB; bound 100 MiB + 1 MiB",
+		fmt.Sprintf("allocation is measured as runtime.MemStats.TotalAlloc growth around one decode in a worker process with RLIMIT_AS = %d GiB; bound 100 MiB + 1 MiB", hardCapAS>>30),
+		"read fragmentation and declared length are swept around the base cases, not crossed with each other (except one-byte reads x declared length on the recorded bodies); 3-frame hostile bodies and recordings longer than 200 bytes get one-byte reads but not every single read boundary",
+		"a declared length that disagrees with the body is an inconsistent input net/http itself would not produce; for it only the safety clauses are demanded (no panic, allocation bound, no fabricated or altered message, no success without a complete OK trailer), not that all messages of the body are delivered",
 		"server side: an abrupt end of the request exactly at a frame boundary and a negative size prefix are not required to be errors, only not to yield messages",
 	}))
 }
